@@ -11,6 +11,7 @@ use std::{
 };
 
 use kira::{
+	Tween,
 	backend::{Backend, Renderer},
 	sound::static_sound::{StaticSoundData, StaticSoundSettings},
 	AudioManager, AudioManagerSettings, Frame,
@@ -101,4 +102,32 @@ fn wrapped_seek_lands_where_the_stepwise_loop_landed() {
 	// eight frames after the wrapped seek the playhead is at 35 + 8; what is heard trails it by the resampler's
 	// few frames: frame 39 of the ramp
 	assert!((out[14] - 0.39).abs() < 1e-6, "sample {}", out[14]);
+}
+#[test]
+fn playing_backwards_below_a_far_away_loop_region_returns_promptly() {
+	let mut manager = manager();
+	let frames: Arc<[Frame]> = (0..50).map(|_| Frame::from_mono(0.25)).collect();
+	// a loop region far beyond the audio (legal: it is simply never reached when playing forwards)
+	let mut handle = manager
+		.play(StaticSoundData {
+			sample_rate: SAMPLE_RATE,
+			frames,
+			settings: StaticSoundSettings::new()
+				.loop_region(1.0e14..1.0e14 + 0.05)
+				.start_position(0.3),
+			slice: None,
+		})
+		.unwrap();
+	let renderer = manager.backend_mut().renderer.take().unwrap();
+	let (renderer, _) = callback_with_timeout(renderer, 4);
+	// now play backwards
+	handle.set_playback_rate(
+		-1.0,
+		Tween {
+			duration: Duration::ZERO,
+			..Default::default()
+		},
+	);
+	let (_renderer, out) = callback_with_timeout(renderer, 16);
+	assert!(out.iter().all(|s| s.is_finite() && (-1.0..=1.0).contains(s)));
 }
